@@ -37,6 +37,8 @@ fn io_err(kind: &str) -> ::std::io::Error {
         "ENOSPC" => ::std::io::Error::from_raw_os_error(28),
         "EINTR" => ::std::io::Error::from(K::Interrupted),
         "EPIPE" => ::std::io::Error::from_raw_os_error(32),
+        "EAGAIN" => ::std::io::Error::from_raw_os_error(11),
+        "ETIMEDOUT" => ::std::io::Error::from_raw_os_error(110),
         _ => ::std::io::Error::new(K::Other, format!("injected {kind}")),
     }
 }
@@ -161,6 +163,190 @@ pub mod std {
                 return Err(crate::io_err(&kind));
             }
             ::std::fs::canonicalize(p)
+        }
+
+        /// `std::fs::File` on the simulator: opening is a scheduled step with the same fault sites
+        /// as `read_to_string` / `write`, every read and write on the handle is a scheduled step,
+        /// everything else derefs to the real file.
+        pub struct File {
+            inner: ::std::fs::File,
+            np: String,
+        }
+        impl File {
+            fn wrap(inner: ::std::fs::File, np: String) -> File {
+                File { inner, np }
+            }
+            pub fn open<P: AsRef<Path>>(p: P) -> ::std::io::Result<File> {
+                OpenOptions::new().read(true).open(p)
+            }
+            pub fn create<P: AsRef<Path>>(p: P) -> ::std::io::Result<File> {
+                OpenOptions::new().write(true).create(true).truncate(true).open(p)
+            }
+            pub fn create_new<P: AsRef<Path>>(p: P) -> ::std::io::Result<File> {
+                OpenOptions::new().read(true).write(true).create_new(true).open(p)
+            }
+            pub fn options() -> OpenOptions {
+                OpenOptions::new()
+            }
+            pub fn try_clone(&self) -> ::std::io::Result<File> {
+                Ok(File::wrap(self.inner.try_clone()?, self.np.clone()))
+            }
+            pub fn into_std(self) -> ::std::fs::File {
+                self.inner
+            }
+        }
+        impl ::std::ops::Deref for File {
+            type Target = ::std::fs::File;
+            fn deref(&self) -> &::std::fs::File {
+                &self.inner
+            }
+        }
+        impl ::std::fmt::Debug for File {
+            fn fmt(&self, f: &mut ::std::fmt::Formatter<'_>) -> ::std::fmt::Result {
+                ::std::fmt::Debug::fmt(&self.inner, f)
+            }
+        }
+        impl ::std::os::fd::AsRawFd for File {
+            fn as_raw_fd(&self) -> ::std::os::fd::RawFd {
+                self.inner.as_raw_fd()
+            }
+        }
+        impl ::std::os::fd::AsFd for File {
+            fn as_fd(&self) -> ::std::os::fd::BorrowedFd<'_> {
+                self.inner.as_fd()
+            }
+        }
+        impl From<File> for ::std::fs::File {
+            fn from(f: File) -> ::std::fs::File {
+                f.inner
+            }
+        }
+        fn file_read(f: &File, buf: &mut [u8]) -> ::std::io::Result<usize> {
+            crate::point(&f.np, &format!("fs.file.read {}", f.np));
+            if let Some((kind, _)) = crate::fault("fs.file.read", &f.np) {
+                return Err(crate::io_err(&kind));
+            }
+            ::std::io::Read::read(&mut &f.inner, buf)
+        }
+        fn file_write(f: &File, buf: &[u8]) -> ::std::io::Result<usize> {
+            crate::point(&f.np, &format!("fs.write.data {}", f.np));
+            if let Some((kind, arg)) = crate::fault("fs.write.data", &f.np) {
+                let n = (arg as usize).min(buf.len());
+                let _ = ::std::io::Write::write(&mut &f.inner, &buf[..n]);
+                return Err(crate::io_err(&kind));
+            }
+            ::std::io::Write::write(&mut &f.inner, buf)
+        }
+        impl ::std::io::Read for File {
+            fn read(&mut self, buf: &mut [u8]) -> ::std::io::Result<usize> {
+                file_read(self, buf)
+            }
+        }
+        impl ::std::io::Read for &File {
+            fn read(&mut self, buf: &mut [u8]) -> ::std::io::Result<usize> {
+                file_read(self, buf)
+            }
+        }
+        impl ::std::io::Write for File {
+            fn write(&mut self, buf: &[u8]) -> ::std::io::Result<usize> {
+                file_write(self, buf)
+            }
+            fn flush(&mut self) -> ::std::io::Result<()> {
+                ::std::io::Write::flush(&mut &self.inner)
+            }
+        }
+        impl ::std::io::Write for &File {
+            fn write(&mut self, buf: &[u8]) -> ::std::io::Result<usize> {
+                file_write(self, buf)
+            }
+            fn flush(&mut self) -> ::std::io::Result<()> {
+                ::std::io::Write::flush(&mut &self.inner)
+            }
+        }
+        impl ::std::io::Seek for File {
+            fn seek(&mut self, pos: ::std::io::SeekFrom) -> ::std::io::Result<u64> {
+                ::std::io::Seek::seek(&mut &self.inner, pos)
+            }
+        }
+        impl ::std::io::Seek for &File {
+            fn seek(&mut self, pos: ::std::io::SeekFrom) -> ::std::io::Result<u64> {
+                ::std::io::Seek::seek(&mut &self.inner, pos)
+            }
+        }
+
+        #[derive(Clone, Debug)]
+        pub struct OpenOptions {
+            inner: ::std::fs::OpenOptions,
+            writes: bool,
+            /// truncate / create / create_new / append: opening already changes (or may change) the tree
+            replaces: bool,
+        }
+        impl OpenOptions {
+            #[allow(clippy::new_without_default)]
+            pub fn new() -> OpenOptions {
+                OpenOptions { inner: ::std::fs::OpenOptions::new(), writes: false, replaces: false }
+            }
+            pub fn read(&mut self, v: bool) -> &mut Self {
+                self.inner.read(v);
+                self
+            }
+            pub fn write(&mut self, v: bool) -> &mut Self {
+                self.inner.write(v);
+                self.writes |= v;
+                self
+            }
+            pub fn append(&mut self, v: bool) -> &mut Self {
+                self.inner.append(v);
+                self.writes |= v;
+                self.replaces |= v;
+                self
+            }
+            pub fn truncate(&mut self, v: bool) -> &mut Self {
+                self.inner.truncate(v);
+                self.replaces |= v;
+                self
+            }
+            pub fn create(&mut self, v: bool) -> &mut Self {
+                self.inner.create(v);
+                self.replaces |= v;
+                self
+            }
+            pub fn create_new(&mut self, v: bool) -> &mut Self {
+                self.inner.create_new(v);
+                self.replaces |= v;
+                self
+            }
+            pub fn mode(&mut self, m: u32) -> &mut Self {
+                ::std::os::unix::fs::OpenOptionsExt::mode(&mut self.inner, m);
+                self
+            }
+            pub fn custom_flags(&mut self, f: i32) -> &mut Self {
+                ::std::os::unix::fs::OpenOptionsExt::custom_flags(&mut self.inner, f);
+                self
+            }
+            pub fn open<P: AsRef<Path>>(&self, p: P) -> ::std::io::Result<File> {
+                let np = crate::rt::norm_path(p.as_ref());
+                if self.writes {
+                    // `fs.rw.open`: write access without truncation or creation (nothing changes yet)
+                    let label = if self.replaces { "fs.write.open" } else { "fs.rw.open" };
+                    crate::point(&np, &format!("{label} {np}"));
+                    if let Some((kind, _)) = crate::fault("fs.write.open", &np) {
+                        return Err(crate::io_err(&kind));
+                    }
+                } else {
+                    crate::point(&np, &format!("fs.read {np}"));
+                    crate::set_last_read(&np);
+                    if let Some((kind, _)) = crate::fault("fs.read", &np) {
+                        return Err(crate::io_err(&kind));
+                    }
+                }
+                let f = self.inner.open(p.as_ref())?;
+                if self.writes {
+                    // a handle opened read+write is also how some implementations read
+                    crate::set_last_read(&np);
+                }
+                Ok(File::wrap(f, np))
+            }
         }
 
         macro_rules! passthrough1 {
@@ -441,6 +627,68 @@ pub mod std {
                 crate::rt::is_finished(self.tid)
             }
         }
+        /// Scoped threads: real `std::thread::scope` underneath, every spawned thread registered
+        /// with the simulator, and all of them joined *in the simulator* before the real scope's
+        /// implicit join (which would otherwise block for real while holding the baton).
+        #[repr(transparent)]
+        pub struct Scope<'scope, 'env: 'scope>(::std::thread::Scope<'scope, 'env>);
+        pub struct ScopedJoinHandle<'scope, T> {
+            tid: usize,
+            real: ::std::thread::ScopedJoinHandle<'scope, T>,
+        }
+        static SCOPE_TASKS: StdMutex<Vec<(usize, usize)>> = StdMutex::new(Vec::new()); // (scope address, tid)
+
+        pub fn scope<'env, F, T>(f: F) -> T
+        where
+            F: for<'scope> FnOnce(&'scope Scope<'scope, 'env>) -> T,
+        {
+            ::std::thread::scope(|rs| {
+                // SAFETY: Scope is a transparent wrapper around the real Scope
+                let s: &Scope<'_, 'env> = unsafe { &*(rs as *const ::std::thread::Scope<'_, 'env> as *const Scope<'_, 'env>) };
+                let key = rs as *const _ as usize;
+                let r = f(s);
+                let mine: Vec<usize> = {
+                    let mut all = SCOPE_TASKS.lock().unwrap_or_else(|e| e.into_inner());
+                    let mine = all.iter().filter(|(k, _)| *k == key).map(|(_, t)| *t).collect();
+                    all.retain(|(k, _)| *k != key);
+                    mine
+                };
+                for tid in mine {
+                    crate::rt::join_task(tid);
+                }
+                r
+            })
+        }
+        impl<'scope, 'env> Scope<'scope, 'env> {
+            pub fn spawn<F, T>(&'scope self, f: F) -> ScopedJoinHandle<'scope, T>
+            where
+                F: FnOnce() -> T + Send + 'scope,
+                T: Send + 'scope,
+            {
+                let tid = crate::rt::register_task(None);
+                SCOPE_TASKS.lock().unwrap_or_else(|e| e.into_inner()).push((&self.0 as *const _ as usize, tid));
+                let real = self.0.spawn(move || {
+                    let _guard = crate::rt::task_entry(tid);
+                    f()
+                });
+                crate::rt::task_spawned(tid, real.thread().clone());
+                ScopedJoinHandle { tid, real }
+            }
+        }
+        impl<'scope, T> ScopedJoinHandle<'scope, T> {
+            pub fn join(self) -> ::std::thread::Result<T> {
+                crate::rt::join_task(self.tid);
+                self.real.join()
+            }
+            pub fn is_finished(&self) -> bool {
+                crate::point("", &format!("thread.is_finished {}", self.tid));
+                crate::rt::is_finished(self.tid)
+            }
+            pub fn thread(&self) -> &::std::thread::Thread {
+                self.real.thread()
+            }
+        }
+
         pub fn sleep(_d: ::std::time::Duration) {
             crate::point("", "thread.sleep");
         }
